@@ -182,7 +182,7 @@ theorem pow_root_decimal_literal_not_thm :
     Real.rpow_lt_rpow_of_exponent_lt (by norm_num) (by norm_num)
   rw [Real.rpow_one] at h3
   rw [h2] at h
-  linarith
+  exact (ne_of_lt h3) h
 
 /-! ## sym_round :  r = rnd<k>(x),  ghost predicate ongrid<k> -/
 
@@ -287,17 +287,17 @@ theorem nearest_zero_ax (k : ℕ) (r : ℝ → ℝ) (hr : IsNearest k r) : r 0 =
 theorem nearest_mono_ax (k : ℕ) (r : ℝ → ℝ) (hr : IsNearest k r) (x y : ℝ) (h : x ≤ y) :
     r x ≤ r y := by
   by_contra hlt
-  push_neg at hlt
+  rw [not_le] at hlt
   have s1 : (r x - x) ^ 2 ≤ (r y - x) ^ 2 := sq_le_sq.mpr (hr.2 x (r y) (hr.1 y))
   have s2 : (r y - y) ^ 2 ≤ (r x - y) ^ 2 := sq_le_sq.mpr (hr.2 y (r x) (hr.1 x))
   -- s1: (r x - r y) * (r x + r y - 2 x) ≤ 0,  s2: (r x - r y) * (2 y - r x - r y) ≤ 0
   have t1 : r x + r y - 2 * x ≤ 0 := by
     by_contra hc
-    push_neg at hc
+    rw [not_le] at hc
     nlinarith [mul_pos (sub_pos.mpr hlt) hc]
   have t2 : 2 * y - r x - r y ≤ 0 := by
     by_contra hc
-    push_neg at hc
+    rw [not_le] at hc
     nlinarith [mul_pos (sub_pos.mpr hlt) hc]
   have hyx : y ≤ x := by linarith
   have hxy : x = y := le_antisymm h hyx
